@@ -50,7 +50,8 @@ func (d *DataSpec) Value() interface{} {
 	}
 	var build func(depth int) map[string]interface{}
 	build = func(depth int) map[string]interface{} {
-		m := map[string]interface{}{"V": string(d.V), "U": string(d.U), "C": d.C, "L": make([]int, d.L), "T": tx.Typed("Script", "var t=1;"), "I": tx.Typed("Identifier", "id1"), "SS": tx.Typed("StyleSheet", "p{color:red}")}
+		m := map[string]interface{}{"V": string(d.V), "U": string(d.U), "C": d.C, "L": make([]int, d.L), "T": tx.Typed("Script", "if (a<b) t(\"x&y\");"), "I": tx.Typed("Identifier", "id1"), "SS": tx.Typed("StyleSheet", "p>a{content:\"<&\"}")}
+		// (the typed values hold characters that HTML escaping changes: whether a context escaped them is visible)
 		if d.Typ != "" {
 			m["V"] = tx.Typed(d.Typ, string(d.V))
 		}
@@ -518,7 +519,7 @@ var badBodies = map[string][]string{
 	"range-reentry-rewrite": {`<a title="{{range .L}}{{.V}}" href="{{end}}">x</a>`, `<p>{{range .L}}{{.V}}<script>{{else}}<script>{{end}}</script>`, `<p {{range .L}}title="{{.V}}"><p{{end}}>`, `<a href="/p/{{range .L}}{{.V}}?x={{end}}">y</a>`},
 	"recursion-open-name":   {`{{define "rn"}}{{if .Next}}{{template "rn" .Next}}title="{{.V}}"{{end}}><a{{end}}|||<a {{template "rn" .}} >`},
 	"recursion-hidden":      {`{{define "rh"}}{{if .Next}}{{template "rh" .Next}}{{.V}}{{else}}</div>{{if .C}}<script{{else}}<div{{end}}>{{end}}{{end}}|||<div>{{template "rh" .}}`, `{{define "ri"}}{{if .Next}}{{template "ri" .Next}}{{.V}}{{else}}"></a><a href="{{end}}{{end}}|||<a href="/x/{{template "ri" .}}">y</a>`, `{{define "rj"}}/{{if .Next}}{{template "rj" .Next}}{{end}}{{end}}|||<script src="{{template "rj" .}}x{{.V}}"></script>`, `{{define "rk"}}{{if .Next}}{{template "rk" .Next}}{{.V}}{{else}}" {{if .C}}href{{else}}title{{end}}="{{end}}{{end}}|||<a title="{{template "rk" .}}">z</a>`},
-	"tag-syntax":            {`<a {{if .C}}href{{end}}="/p?q=" title="{{.V}}">x</a>`, `{{if .C}}<a{{else}}</a{{end}} /="/p?q=" data-x="{{.V}}">`, `<script </script>{{.V}}</script>`, `<a title={{if .C}}x{{end}} alt="{{.V}}">y</a>`, `<b title{{if .C}}/{{end}}="{{.V}}">x</b>`},
+	"tag-syntax":            {`<a>x</a /="><img title=" data-x="{{.V}}">`, `<a {{if .C}}href{{end}}="/p?q=" title="{{.V}}">x</a>`, `{{if .C}}<a{{else}}</a{{end}} /="/p?q=" data-x="{{.V}}">`, `<script </script>{{.V}}</script>`, `<a title={{if .C}}x{{end}} alt="{{.V}}">y</a>`, `<b title{{if .C}}/{{end}}="{{.V}}">x</b>`},
 	"predefined-escaper":    {`{{.V | html | print}}`, `<a title={{.V | html}}>`},
 	"js-template":           {"<script>var a = `x</script>", "<script>`${</script>"},
 	"enum-partial":          {`<a target="x{{.V}}">`},
